@@ -9,9 +9,11 @@ Bounded-exhaustive enumeration.
   vectors, zone law for exactly the two in-plane slots, right-handed determinant) and the
   returned normal against h a* + k b* + l c* of the conventional cell.
 * ``slab``: every plane of the |index| <= 2 subset x the same cells carrying 1-3 basis
-  atoms x three cut vectors: FreeSurface (every offered shift index x slab options) and
-  StackingFault (every shift index x every fault position between two atomic layers x a
-  menu of fault displacements).  Oracles: an independent layer model of the crystal in
+  atoms x three cut vectors (quick: cut c for every plane, cuts a and b for |index| <= 1):
+  FreeSurface (every offered shift index x slab options) and StackingFault (every shift
+  index x every fault position between two atomic layers x a menu of fault displacements;
+  quick: every position for the first and the last shift index, the lowest, middle and
+  highest gap for the other shift indices).  Oracles: an independent layer model of the crystal in
   Fractions (number of terminations, gap widths), mapping every atom of the slab back to
   a lattice site of the unit cell, exact displacement bookkeeping for the fault.
 * ``refusal``: the documented refusals, each of which must be raised.
@@ -39,11 +41,14 @@ chk = Check('C14', 'exploration',
             'basis: all (hkl) in [-B,B]^3\\0 (B=3 quick / 4 thorough) x cells (7 primitive families + centred '
             'settings f,i,a,b,c,t1,t2 + 1 seed cell) x cut vector a/b/c (quick: centred cells use all three cuts '
             'only for |index|<=2, cut c beyond), all (hkil) in [-B,B]^4 for the hexagonal cell (valid ones judged, '
-            'invalid ones must be refused); slab: all planes with |index|<=2 x cells with atoms x 3 cuts; for each '
+            'invalid ones must be refused); slab: all planes with |index|<=2 x cells with atoms x 3 cuts (quick: cut c '
+            'for all of them, cuts a and b for |index|<=1); for each '
             'accepted orientation every offered shift index x slab options (quick: plain + one option tuple rotating '
             'through the full menu, thorough: full menu) and, for StackingFault, every shift index x every fault '
-            'position between consecutive atomic layers x fault displacement (quick: rotating through the menu, '
-            'thorough: full menu for the plain slab).  A case is one call of free_surface_basis or one '
+            'position between consecutive atomic layers (quick: every position for the first and last shift index, '
+            'lowest/middle/highest gap for the others) x fault displacement (quick: rotating through the menu, '
+            'thorough: full menu for the plain slab).  A search failure (AssertionError) with the default maxindex '
+            'is a failure.  A case is one call of free_surface_basis or one '
             '(cell,plane,cut) orientation with all its slabs/faults; non-trivial = accepted orientation whose plane '
             'has at least two non-zero indices (the lcm construction and both searches do real work)')
 chk.assumptions = [
@@ -845,6 +850,9 @@ def slab(case):
         fps = list(0.5 * (lay[1:] + lay[:-1]))
         if THOROUGH:
             fps += list(0.75 * lay[:-1] + 0.25 * lay[1:])
+        elif 0 < i < len(sf.shifts) - 1 and len(fps) > 3:
+            # quick: every gap for the first and the last termination, lowest / middle / highest gap for the others
+            fps = [fps[0], fps[len(fps) // 2], fps[-1]]
         chk.note('fault-positions', len(fps))
         full = THOROUGH and fopt == FOPTS[0] and i in (0, len(sf.shifts) - 1)
         for k, fp in enumerate(fps):
@@ -980,6 +988,8 @@ def gen():
         for h in pl:
             for cut in CUTS:
                 n += 1
+                if not THOROUGH and cut != 'c' and max(abs(x) for x in h) > 1:
+                    continue
                 yield 'slab', {'cell': ci, 'hkl': h, 'cut': cut, 'n': n}
     for ci, cell in enumerate(CELLS):
         for h in planes3(BOUND):
